@@ -238,3 +238,92 @@ def attack_strings(pattern_text, flags=0, ks=(16, 20, 24)):
                     walk(a, before, groups)
     walk(tree, "", {})
     return out
+
+
+def _contains_unbounded(seq):
+    for op, av in seq:
+        n = str(op)
+        if n in ("MAX_REPEAT", "MIN_REPEAT"):
+            if _unbounded(op, av) or _contains_unbounded(av[2]):
+                return True
+        elif n == "SUBPATTERN":
+            if _contains_unbounded(av[3]):
+                return True
+        elif n == "BRANCH":
+            if any(_contains_unbounded(a) for a in av[1]):
+                return True
+        elif n == "ATOMIC_GROUP":
+            if _contains_unbounded(av):
+                return True
+    return False
+
+
+def repeated_bodies_with_inner_repeat(pattern_text, flags=0):
+    """[(prefix, [one minimal match per body alternative that holds an inner unbounded repeat])] for every unbounded repeat
+    whose body contains, at any depth, another unbounded repeat -- the syntactic superset of the catastrophic shapes, e.g.
+    (?:\\{%.*?%\\}|\\s)+ where the lazy dot can run over the delimiters of the next iteration"""
+    tree = sre_parse.parse(pattern_text, flags)
+    out = []
+
+    def walk(seq, prefix, groups):
+        seq = list(seq)
+        for i, (op, av) in enumerate(seq):
+            n = str(op)
+            before = prefix + _min_match(seq[:i], dict(groups))
+            if n in ("MAX_REPEAT", "MIN_REPEAT"):
+                if _unbounded(op, av):
+                    pumps = [_min_match(alt) for alt in _alternatives(av[2]) if _contains_unbounded(alt)]
+                    pumps = [p for p in pumps if p]
+                    if pumps:
+                        out.append((before, pumps))
+                walk(av[2], before, groups)
+            elif n == "SUBPATTERN":
+                walk(av[3], before, groups)
+            elif n == "BRANCH":
+                for a in av[1]:
+                    walk(a, before, groups)
+    walk(tree, "", {})
+    return out
+
+
+def pumped_timing(pattern_text, flags=0, ks=(12, 16, 20), budget_s=2.0):
+    """empirical probe (bounded, not a proof): match / search / fullmatch of the pattern on prefix + pump*k + a suffix that
+    makes the match fail late, for the bodies of repeated_bodies_with_inner_repeat; returns the worst observation
+    {'input', 'api', 'times'} whose time grows by more than 6x per step of 4 and exceeds 50 ms (or the budget), else None"""
+    import re
+    import signal
+    import time
+
+    class _T(Exception):
+        pass
+
+    def _h(*a):
+        raise _T()
+    rx = re.compile(pattern_text, flags)
+    worst = None
+    old = signal.signal(signal.SIGALRM, _h)
+    try:
+        for prefix, pumps in repeated_bodies_with_inner_repeat(pattern_text, flags):
+            for pump in pumps:
+                for suffix in ("\x01", " and some text", ""):
+                    for api in ("fullmatch", "match", "search"):
+                        ts = []
+                        for k in ks:
+                            s = prefix + pump * k + suffix
+                            t0 = time.time()
+                            signal.setitimer(signal.ITIMER_REAL, budget_s)
+                            try:
+                                getattr(rx, api)(s)
+                            except _T:
+                                pass
+                            finally:
+                                signal.setitimer(signal.ITIMER_REAL, 0)
+                            ts.append(max(time.time() - t0, 1e-6))
+                            if ts[-1] >= budget_s * 0.95:
+                                break
+                        blow = ts[-1] >= budget_s * 0.95 or (len(ts) == 3 and ts[2] > 6 * ts[1] and ts[1] > 6 * ts[0] and ts[2] > 0.05)
+                        if blow and (worst is None or ts[-1] > worst["times"][-1]):
+                            worst = {"input": prefix + pump * ks[len(ts) - 1] + suffix, "api": api, "times": [round(t, 5) for t in ts], "pump": pump}
+    finally:
+        signal.signal(signal.SIGALRM, old)
+    return worst
